@@ -1,6 +1,7 @@
 //! Property registry.
 pub mod common;
 pub mod c01;
+pub mod c02;
 pub mod c05;
 pub mod c08;
 pub mod c09;
@@ -15,5 +16,5 @@ pub mod c16;
 use crate::runner::Property;
 
 pub fn all() -> Vec<&'static dyn Property> {
-    vec![&c01::C01, &c05::C05, &c08::C08, &c09::C09, &c10::C10, &c11::C11, &c12::C12, &c13::C13, &c14::C14, &c15::C15, &c16::C16]
+    vec![&c01::C01, &c02::C02, &c02::C03, &c05::C05, &c08::C08, &c09::C09, &c10::C10, &c11::C11, &c12::C12, &c13::C13, &c14::C14, &c15::C15, &c16::C16]
 }
